@@ -126,6 +126,17 @@ func (Rewards) Check(t *explore.Transition) ([]V, bool) {
 	add := func(sig, format string, a ...interface{}) {
 		out = append(out, V{Signature: sig, Detail: fmt.Sprintf("height %d (%s): ", m.h, cur.W.Envs[last.Block.Env].Name) + fmt.Sprintf(format, a...)})
 	}
+	// the accrued amounts as the committed state records them (what a restarted node, an export
+	// or a snapshot pays out at the next payout) must be the node's
+	for _, d := range post.DiskDiff {
+		if obs.KeyClass(d.Key) == "val/*/accum_reward" {
+			kind := "ordinary-block"
+			if m.payout {
+				kind = "payout-block"
+			}
+			add("accrual|committed-record-differs|"+kind, "%s: the node holds %q, its committed state %q", d.Key, d.A, d.B)
+		}
+	}
 	fees := last.Obs.Rewards
 	delta, blockRem := c19AccrualModel(pre, m, fees)
 	nontrivial := m.payout || (fees != nil && fees.Sign() > 0)
